@@ -6,7 +6,7 @@ and a block, operands drawn (with repeats) from its nodes ("folded" operands).
 All host input assignments are enumerated bit-parallel with the reference evaluator.
 """
 
-from vmc import refmodel
+from vmc import refmodel, space
 
 
 def host(kind, k):
@@ -18,7 +18,7 @@ def host(kind, k):
     if kind == 'H0':
         labs = [f'in{i}' for i in range(k)]
         c.add_inputs(labs)
-        return c, labs
+        return space.variant(c), labs
     if kind == 'H1':
         ins = [f'in{i}' for i in range(k)]
         c.add_inputs(ins)
@@ -29,7 +29,7 @@ def host(kind, k):
             ops.append(o)
         c.emplace_gate('dead', G.AND, (ops[0], ops[-1]))
         c.set_outputs([ops[0]])
-        return c, ops
+        return space.variant(c), ops
     raise KeyError(kind)
 
 
@@ -51,7 +51,7 @@ def host2(q=3):
     c.set_outputs(['e1', 'h0', 'e4'])
     c.make_block('HB', ['e0', 'e3'], ['e3'])
     pool = [p for p in H2_POOL if p in c.gates]
-    return c, pool
+    return space.variant(c), pool
 
 
 def snapshot(c):
@@ -172,7 +172,7 @@ def saturated_host(k):
                 c.emplace_gate(f'h{cnt}', getattr(G, t), (o, x))
                 cnt += 1
     c.set_outputs([ins[0]])
-    return c, ins
+    return space.variant(c), ins
 
 
 def odd_label_host(k):
@@ -183,4 +183,4 @@ def odd_label_host(k):
     labs = [pool[i] if i < len(pool) else f'in{i}' for i in range(k)]
     c = Circuit()
     c.add_inputs(labs)
-    return c, labs
+    return space.variant(c), labs
